@@ -11,14 +11,29 @@
       only on which paths exist ([C09_lookup_keys_only]); a known size or alignment never changes when
       more items get resolved ([C09_size_monotone], [C09_align_monotone]);
     - the emitter sorts what it prints ([sort_perm] in C14), and the model is a function.
-    NOT PROVED (so the claim is partial): that the model's [attempt], as a whole, satisfies M1 and
-    M2.  At the pinned commit it did not (F7a, repaired; F7b, listed).  The order-independence of the
-    real implementation is therefore decided by the monitor of this property, directly on the real
-    code: exhaustive enumeration of first-round resolution orders and sampled later rounds through
-    the schedule hook, every permutation of module-addition order through the API, repeated builds
-    in one process and in fresh processes with real hash seeds -- all compared byte for byte. *)
+    - [C09_attempt_monotone]: the model's real [attempt] satisfies M1 and M2 (an attempt that does
+      not defer gives the same result in every state that knows at least the same resolved input
+      items), under two decidable side conditions: [collision_free] (no input item is named like the
+      vftable struct generated for an input type) and cleanliness (no module path, use path, impl
+      name position or type name written in the input ends in "Vftable").  Without them it is false of
+      the model and of pyxis: open findings F4b and F7b are exactly these two cases;
+    - [C09_model_order_independent]: hence, for EVERY input (any pointer width, any list of modules)
+      meeting the side conditions and ANY two permutation-valued order functions -- in particular
+      any two schedules the hook can install ([C09_hook_schedules_are_permutations]) -- the
+      resolution loop ends with the same verdict class (accepted / no progress / error) and the same
+      resolved value for every input item (simulation of [resolve_loop] by the abstract loop,
+      OrderIndep.v);
+    NOT PROVED: that [finish_build] and the emitter, applied to two final states that agree on every
+    input item, give the same files (the generated vftable items are determined by their owners'
+    resolved values, but that and the sortedness argument for list orders are not formalised).  The
+    order-independence of the real implementation, including the files, is decided by the monitor
+    of this property directly on the real code: exhaustive enumeration of first-round resolution
+    orders and sampled later rounds through the schedule hook, every permutation of module-addition
+    order through the API, repeated builds in one process and in fresh processes with real hash
+    seeds -- all compared byte for byte. *)
 From Coq Require Import List Bool Permutation NArith String.
-From PyxisModel Require Import Base Grammar SemTypes Registry Sem ScopeLemmas Confluence.
+From PyxisModel Require Import Base Grammar SemTypes Registry Sem ScopeLemmas Confluence WholeBuild Monotone
+     OrderIndep Examples.
 Import ListNotations.
 
 Theorem C09_order_independent_abstract :
@@ -47,3 +62,35 @@ Theorem C09_align_monotone : forall R R' t a,
   reg_extends R R' -> align_of R t = Some a -> align_of R' t = Some a.
 Proof. intros. eapply align_of_mono; eauto. Qed.
 Print Assumptions C09_align_monotone.
+
+(** ** M1 and M2 for the model's real attempt *)
+Theorem C09_attempt_monotone : forall R0, collision_free R0 -> user R0 ["u8"%string] ->
+  forall st st' p gd o,
+  usub R0 (st_reg st) (st_reg st') -> mods_agree (st_modules st) (st_modules st') ->
+  present R0 (st_reg st) -> chas R0 (st_reg st) -> chas R0 (st_reg st') -> user R0 p ->
+  (forall parent m, path_parent p = Some parent -> alookup parent (st_modules st) = Some m ->
+                    clean_module m = true) ->
+  clean_def gd = true ->
+  snd (attempt st p gd) = o -> o <> Base.Defer -> snd (attempt st' p gd) = o.
+Proof. exact attempt_mono. Qed.
+Print Assumptions C09_attempt_monotone.
+
+Theorem C09_hook_schedules_are_permutations : forall ks l, Permutation (hook_schedule ks l) l.
+Proof. exact hook_schedule_perm. Qed.
+Print Assumptions C09_hook_schedules_are_permutations.
+
+(** ** order independence of the model's resolution loop, for every input meeting the side
+    conditions; [same_verdict]: both accepted with the same resolved value for every input item, or
+    both without progress on the same set of items, or both in error *)
+Theorem C09_model_order_independent : forall ptr mods st0 o1 o2,
+  input_state ptr mods = Ok st0 -> collision_free (st_reg st0) -> clean_stateb st0 = true ->
+  (forall l, Permutation (o1 l) l) -> (forall l, Permutation (o2 l) l) ->
+  let fuel := S (List.length (reg_unresolved (st_reg st0))) in
+  same_verdict st0 (resolve_loop o1 fuel st0) (resolve_loop o2 fuel st0).
+Proof. exact pyxis_loop_order_independent. Qed.
+Print Assumptions C09_model_order_independent.
+
+(** non-vacuity: the input of Examples.v meets both side conditions *)
+Example C09_side_conditions_example :
+  exists st0, input_state 4 ex_mods = Ok st0 /\ collision_freeb (st_reg st0) = true /\ clean_stateb st0 = true.
+Proof. vm_compute. eexists; repeat split; reflexivity. Qed.
